@@ -6,6 +6,7 @@ import (
 	"go/constant"
 	"go/token"
 	"go/types"
+	"os"
 	"sort"
 	"strings"
 
@@ -407,7 +408,16 @@ func ruleDrainChildren(c *eng.Ctx) {
 							}
 						}
 					}
+					// ... and nothing is returned before the loop over the pending items was entered
+					for _, r := range eng.Returns(fn) {
+						if !outer.Dominates(r.Block()) {
+							everyTrip = false
+						}
+					}
 					if back > 0 && everyTrip {
+						if os.Getenv("VDEBUG") != "" {
+							fmt.Fprintf(os.Stderr, "R16.3 %s outer=%d hdr=%d back=%d\n", key, outer.Index, hdr.Index, back)
+						}
 						okDom = true
 					}
 				}
